@@ -317,7 +317,14 @@ def gen_orderbook(rng, g, name, node, n_orders=None, full_exec=False, price_leve
         # orders listed in the order of their delivery start (as an exchange order book would be): the last orders are the latest ones
         idx = sorted(range(len(o['start'])), key=lambda i: o['start'][i])
         o = {k: [v[i] for i in idx] for k, v in o.items()}
-    return {'type': 'OrderBook', 'name': name, 'nodes': [node], 'orders': o, 'full_exec': bool(full_exec), 'wacc': pick(rng, [0., 0., 0.1])}
+    out = {'type': 'OrderBook', 'name': name, 'nodes': [node], 'orders': o, 'full_exec': bool(full_exec), 'wacc': pick(rng, [0., 0., 0.1])}
+    r_ = rng.random()
+    if r_ < 0.25:
+        # order data as integers (an order book read from a file of whole MW and whole EUR)
+        o['capa'] = [int(v) for v in o['capa']]; o['price'] = [int(round(v)) for v in o['price']]
+    if tz is not None and rng.random() < 0.3:
+        out['_orders_tz'] = pick(rng, ['UTC', 'Asia/Kolkata', 'America/New_York', 'Europe/London'])
+    return out
 
 
 def gen_plant(rng, g, name, nodes, f, price_key, chp=False, simple=False, fuel=True, ramp_profiles=True, dict_costs=False):
